@@ -31,6 +31,7 @@ def subspaces(tier):
     s4, s3, s2 = D.shapes(3, 4), D.shapes(3, 3), D.shapes(2, 2)
     out += C.structure_subspaces(s4, 2, False, mode="plain")
     out += C.structure_subspaces(s3, 2, True, only_flexible=True, mode="plain")
+    out += C.structure_subspaces(D.shapes(2, 3), 2, False, mode="plain", manual=True)
     rs = s3 + [(2, 2)] if tier == "quick" else s4
     out += C.structure_subspaces(rs, 2, False, mode="reset")
     out += C.structure_subspaces(s2 if tier == "quick" else s3, 2, True, only_flexible=True, mode="reset")
@@ -79,7 +80,13 @@ def harness(eng, sp):
     if mode == "env":
         return env_harness(eng, sp, inst, desc)
     disp = Dispatcher(inst)
-    mk, idle = MakespanReward(disp), IdleTimeReward(disp)
+    if sp.get("manual"):
+        # created detached and subscribed by hand: still exactly one reward per dispatch
+        mk, idle = MakespanReward(disp, subscribe=False), IdleTimeReward(disp, subscribe=False)
+        disp.subscribe(mk)
+        disp.subscribe(idle)
+    else:
+        mk, idle = MakespanReward(disp), IdleTimeReward(disp)
     if mode == "reset":
         n1 = 1 + eng.choice(desc.n_ops, "first-episode-length")
         s1 = Spec(desc)
